@@ -332,6 +332,12 @@ class SpecGen:
                 done.add(h)
                 out.append("pub open spec fn %s(s: Seq<%s>, n: int) -> Seq<Node>\n    decreases s, n\n{\n    if 0 < n <= s.len() { %s } else { %s }\n}\n" % (
                     h, self.tt.rust_ty(et), self.chain(h + "(s, n - 1)", ss), EMPTY))
+        # size lemmas (PROVED): the nodes of a prefix are no more than the nodes of a longer prefix; used for the
+        # termination measure `all_nodes(node).len()` of the walker's recursive calls made from inside loops
+        for h in sorted(done):
+            et, _ss = self.helpers[h]
+            out.append("pub proof fn lemma_%s_mono(s: Seq<%s>, a: int, b: int)\n    requires 0 <= a <= b <= s.len()\n    ensures %s(s, a).len() <= %s(s, b).len()\n    decreases b - a\n{\n    if a < b { lemma_%s_mono(s, a, b - 1); }\n}\n" % (
+                h, self.tt.rust_ty(et), h, h, h))
         return "\n".join(out)
 
     def helper_for_elem(self, rust_elem_ty_printed):
